@@ -29,6 +29,11 @@ CHECKS = {
          "On the complete parameter domain (degree bits <= 20, rate <= 5, cap <= 8, 382 strategies: all Fixed schedules over {1..4}^<=4, ConstantArityBits, MinSize) the arity schedules never fold below the cap or the degree and leave a final polynomial of the advertised length (MinSize compared with a DP optimum). For every enumerated oracle shape (1-3 oracles x 1-3 polynomials, blinding per oracle), degree <= 2^5, opening structure, parameter tuple and coefficient family, honest plain and batch FRI opening proofs are accepted. For every honest proof and every single deviation (false opening with consistent transcript, adversarial first layer, over-degree commitment, insufficient grinding via the pow-witness knob, each proof element +1, each array drop/empty/duplicate, initial-cap edits; the same on BatchFriOracle with 2-4 degrees) verify_fri_proof / verify_batch_fri_proof return exactly the verdict of the naive reference verifier, and none of the deviations is accepted (probabilistic ones asserted only above q*rate >= 40 or q*lde_bits >= 40).",
          "trusted: Poseidon hash_or_noop / two_to_one (C13), Goldilocks generator constants (re-checked), serde images of FriProof, library FFT / Merkle builders on the prover/driver side only; toy sizes (d <= 5, <= 28 queries), single deviations",
          "DESIGN.md §4 C05"),
+ "C06": ("fault_enumeration",
+         "differential fault enumeration: for every inner proof of an enumerated set (honest, every leaf tampered, every list mutated, adversarial false statements, wrong verifier data) compare the native verdict with (library assignment routines + witness generation + exact satisfaction oracle on an outer verifier circuit built once)",
+         "For each (inner circuit incl. lookups, inner FRI configuration with arity 2 / 4 / 8 / 16 reductions, caps 0-4, 1-3 challenges, zero-knowledge; outer configuration standard / wide / zero-knowledge): honest inner proofs are accepted natively and in-circuit and the outer proof is produced, verifies and re-exposes the inner public inputs; EVERY numeric leaf of the inner proof changed, every list node dropped-from / duplicated / swapped, inner proofs of false statements emitted by the real prover under adversarial strategies (corrupted cells, zero / constant accumulator, lenient quotient, quotient perturbed for each challenge index, chosen pow witnesses, lenient lookups), every element of the verifier data changed and other circuits' verifier data: native verify is Ok <=> the assignment derived through set_proof_with_pis_target / set_verifier_data_target passes witness generation AND satisfies the outer circuit.",
+         "trusted: exact satisfaction oracle (plonkm.rs; gate evaluators are C07's), Keccak inner proofs are inadmissible in-circuit; the native verdict is computed per case so no verdict floor is needed",
+         "DESIGN.md §4 C06"),
  "C12": ("model_checking",
          "bounded exhaustive enumeration of trees (leaf counts x cap heights x widths x hashers x leaf families) against a level-by-level reference tree with the complete single-deviation negative set per position; stateless choice-point DFS over ALL fork-join orders of the tree construction (join chooser hook)",
          "For Poseidon and Keccak, MerkleTree and BatchMerkleTree (every strictly decreasing height profile of <= 3 layers) produce exactly the cap, digest layout and sibling paths of pairwise level-by-level hashing, under EVERY fork-join order of fill_subtree for trees up to 8 (thorough 16) leaves and every order with <= 2 right-first decisions for larger ones (each schedule executed twice; divergence is a machinery error). Every honest opening verifies; every opening with another leaf of the same width, another or out-of-range index, any edited sibling element, any edited element of the path's cap entry, or a truncated/extended sibling list is not accepted; equal leaves and unrelated cap entries cause no false rejection. Compressed multi-proofs decompress to exactly the original proofs for ALL index tuples of length <= 3 (4) incl. repetitions, each verifies, and no compressed sibling is unused.",
